@@ -308,6 +308,72 @@ def check_index_by_name(prog, res, f, positional_of_class, size_getters):
     return container
 
 
+def model_index_by_name(f, container, alias):
+    """walk the function on every model with 0..3 elements named over {A, a, B} and the argument A:
+    the outcome must be `return (first k with name[k] == A)` or `throw std::invalid_argument` when there is none.
+    -> ('ok', nrows) | ('mismatch', description) | ('undecided', why)"""
+    import itertools
+    import a7
+    nrows = 0
+    for n, ARG in itertools.product(range(4), ('A', 'a')):
+        for combo in itertools.product(('A', 'a', 'B'), repeat=n):
+            model = {'this.%s.size' % container: n, 'arg0': ARG, '#alias': dict(alias)}
+            for k, nm in enumerate(combo):
+                model['this.%s[%d]._name' % (container, k)] = nm
+            want = ('return', combo.index(ARG)) if ARG in combo else ('throw', INVARG)
+            st = {}
+            try:
+                events, end, undec = a7.walk(f, model, follow_loops=True, state=st, max_steps=2000)
+            except a7.OutOfRange as e:
+                return 'mismatch', 'with %d element(s) named %s the search reads element %s' % (n, list(combo), e)
+            if end.startswith('undecided') or end == 'loop':
+                why = ''
+                if undec:
+                    why = Renderer(f).render(undec[-1][0])
+                return 'undecided', 'a condition cannot be evaluated on the model (%s)' % why[:120]
+            if end.startswith('throw:'):
+                got = ('throw', end[6:].split('@')[0])
+            elif 'ret' in st and st['ret'] is not None:
+                got = ('return', st['ret'])
+            elif 'ret_node' in st:
+                return 'undecided', 'the returned value cannot be evaluated on the model'
+            else:
+                got = ('end', end)
+            nrows += 1
+            if got != want:
+                return 'mismatch', 'with %d element(s) named %s and the name %s asked for, the outcome is %s %s; the first exact match rule gives %s %s' % (n, list(combo), ARG, got[0], got[1], want[0], want[1])
+    return 'ok', nrows
+
+
+def index_by_name(prog, res, f, cls_pos, vecs):
+    """first-exact-match rule: read off the usual loop shape; any other shape is decided by walking the
+    function on finite models (never a verdict from the shape alone)"""
+    tmp = Result('x', 'quick', '')
+    cont = check_index_by_name(prog, tmp, f, cls_pos, None)
+    if tmp.obs and all(o['verdict'] == 'ok' for o in tmp.obs):
+        res.obs.extend(tmp.obs)
+        return cont
+    cands = [cont] if cont else [c for c, el in vecs.items() if any(fl['name'] == '_name' for fl in prog.classes.get(el, {}).get('fields', []))]
+    verdicts = []
+    for c in cands:
+        alias = {p.name: cc for p, cc in cls_pos if cc == c}
+        v, info = model_index_by_name(f, c, alias)
+        verdicts.append((c, v, info))
+        if v == 'ok':
+            res.ok('index-by-name', f.sig, f.loc(), 'not the usual loop shape; walked on %d finite models (0..3 elements named over {A, a, B}): first exact match over %s, else std::invalid_argument' % (info, c),
+                   function=f.sig, expr='all')
+            return c
+    mism = [x for x in verdicts if x[1] == 'mismatch']
+    if mism:
+        c, _, info = mism[0]
+        shape = '; '.join(o['detail'] for o in tmp.obs if o['verdict'] != 'ok')[:300]
+        res.viol('index-by-name', f.sig, f.loc(), '%s [%s]' % (info, shape), function=f.sig, expr=(tmp.obs[0]['expr'] if len(tmp.obs) == 1 else 'model'))
+        return c
+    res.undecided('index-by-name', f.sig, f.loc(), 'the name search is not in the usual loop shape and cannot be walked on finite models: %s' %
+                  '; '.join('%s: %s' % (c, info) for c, _, info in verdicts)[:300], function=f.sig, expr='loops')
+    return cont
+
+
 def run(prog, tier):
     res = Result('C11', tier,
                  'Inventory by signature shape with frozen minimum sizes, then per-accessor discipline rules on '
@@ -351,7 +417,7 @@ def run(prog, tier):
         for m, f in cand_idx:
             if f is None:
                 continue
-            cont = check_index_by_name(prog, res, f, cls_pos, None)
+            cont = index_by_name(prog, res, f, cls_pos, vecs)
             idxfns.append((f, cont))
         cls_idx = [(f, cont) for f, cont in idxfns if f.cls == q]
         for m, f in cand_name:
